@@ -509,6 +509,52 @@ pub fn run_ctor(cfg: &Value) -> Value {
     }
 }
 
+/// generator sets (C11/C19): cfg: n, cap, x. Lists every generator a parameter set exposes, in iteration order.
+pub fn run_gens(cfg: &Value) -> Value {
+    let n = cfg["n"].as_u64().unwrap() as usize;
+    let cap = cfg["cap"].as_u64().unwrap() as usize;
+    let x = cfg["x"].as_u64().unwrap_or(1) as usize;
+    let pc = ristretto::create_pedersen_gens_with_extension_degree(ext_degree(x));
+    let pc_h = env::point_id(&pc.h_base);
+    let pc_hc = env::hex32(pc.h_base_compressed.as_bytes());
+    let params = RangeParameters::init(n, cap, pc).expect("params");
+    let gi: Vec<RistrettoPoint> = params.gi_base_iter().cloned().collect();
+    let hi: Vec<RistrettoPoint> = params.hi_base_iter().cloned().collect();
+    let mut out = json!({
+        "gi": gi.iter().map(env::point_id).collect::<Vec<_>>(),
+        "hi": hi.iter().map(env::point_id).collect::<Vec<_>>(),
+        "g": params.g_bases().iter().map(env::point_id).collect::<Vec<_>>(),
+        "h": env::point_id(params.h_base()),
+        "pc_h": pc_h,
+        "gi_compressed": gi.iter().map(|p| env::hex32(p.compress().as_bytes())).collect::<Vec<_>>(),
+        "hi_compressed": hi.iter().map(|p| env::hex32(p.compress().as_bytes())).collect::<Vec<_>>(),
+        "g_compressed_accessor": params.g_bases_compressed().iter().map(|c| env::hex32(c.as_bytes())).collect::<Vec<_>>(),
+        "g_compressed": params.g_bases().iter().map(|p| env::hex32(p.compress().as_bytes())).collect::<Vec<_>>(),
+        "h_compressed_accessor": env::hex32(params.h_base_compressed().as_bytes()),
+        "pc_h_compressed_field": pc_hc,
+        "h_compressed": env::hex32(params.h_base().compress().as_bytes()),
+        "identity": env::hex32(&[0u8; 32]),
+    });
+    // the precomputed tables: their effect on unit vectors must be the interleaved generators (observed through the public API:
+    // multiplying by the k-th unit vector returns the k-th static point)
+    use curve25519_dalek::traits::VartimePrecomputedMultiscalarMul;
+    let pre = params.precomp();
+    let total = 2 * n * cap;
+    let mut units = Vec::new();
+    let probe: Vec<usize> = if total <= 64 { (0..total).collect() } else { vec![0, 1, 2, 3, n, 2 * n - 1, 2 * n, 2 * n + 1, total / 2, total - 2, total - 1] };
+    for k in probe.into_iter().filter(|k| *k < total) {
+        let scalars: Vec<Scalar> = (0..total).map(|i| if i == k { Scalar::ONE } else { Scalar::ZERO }).collect();
+        let p = pre.vartime_multiscalar_mul(scalars.iter());
+        units.push(json!([k, env::point_id(&p), env::hex32(p.compress().as_bytes())]));
+    }
+    out["precomp_units"] = json!(units);
+    #[cfg(not(feature = "model"))]
+    {
+        out["reference"] = crate::refimpl::reference_generators(n, cap, x);
+    }
+    out
+}
+
 /// byte codec (C15/C16): cfg: tag (absent = empty buffer), elems (count of 32-byte symbolic elements),
 /// trailing (0..31 literal bytes), noncanonical: [element indices forced non-canonical]
 pub fn run_codec(cfg: &Value) -> Value {
